@@ -37,7 +37,7 @@ func parseBounds(s string) map[string]int {
 }
 
 func Main(args []string) int {
-	debug.SetGCPercent(400)
+	debug.SetGCPercent(200)
 	if len(args) == 0 {
 		fmt.Fprintln(os.Stderr, "usage: verif run|check|replay|list ...")
 		return 2
